@@ -270,3 +270,127 @@ func verifC08_alloc() {
 	c.CloseNow()
 	vObserve("alloc", declared, got)
 }
+
+// C08.seq: the limit may change between messages, also from and to -1 (unlimited): each message is judged by the limit
+// in force when it starts. Two messages, the limit set before each (or left alone before the second).
+func verifC08_seq() {
+	client := vParam("client", 1) == 1
+	vInstallRand()
+	limits := []int{-1, 1, 2, 3}
+	L1 := limits[vChoose("L1", len(limits))]
+	n1 := 1 + vChoose("n1", 3)
+	change := vChoose("change", 2) == 1
+	L2 := L1
+	if change {
+		L2 = limits[vChoose("L2", len(limits))]
+	}
+	n2 := 1 + vChoose("n2", 4)
+	vAssume(L1 < 0 || n1 <= L1) // the first message is within its limit: the connection survives it
+	d1, d2 := vBytes("d1", n1), vBytes("d2", n2)
+	var frames []vFrame
+	var cuts1 []int
+	if n1 > 1 && vChoose("frag1", 2) == 1 {
+		cuts1 = []int{1}
+	}
+	frames = append(frames, vDataFrames(d1, cuts1, 2, false, client)...)
+	var cuts2 []int
+	if n2 > 1 && vChoose("frag2", 2) == 1 {
+		cuts2 = []int{1}
+	}
+	frames = append(frames, vDataFrames(d2, cuts2, 1, false, client)...)
+	t := vNewTransport(vEncodeFrames(frames))
+	c := vNewConn(t, client, nil, 64, 256)
+	c.SetReadLimit(int64(L1))
+	_, b1, err1 := c.Read(vBG)
+	vAssert(vAnd(err1 == nil, vEqBytes(b1, d1)), "C08.seq.first-delivered")
+	if change {
+		c.SetReadLimit(int64(L2))
+	}
+	_, r, err := c.Reader(vBG)
+	vAssert(err == nil, "C08.seq.second-reader")
+	if err != nil {
+		return
+	}
+	got, rerr := vReadAll(r, 1+vChoose("buf", 2)*6)
+	vReach("C08.seq.read")
+	if L1 < 0 {
+		vClassify("first", "unlimited")
+	} else {
+		vClassify("first", "limited")
+	}
+	if L2 < 0 || n2 <= L2 {
+		vReach("C08.seq.within")
+		vAssert(vAnd(rerr == nil, vEqBytes(got, d2)), "C08.seq.within-limit-delivered")
+	} else {
+		vReach("C08.seq.over")
+		vAssert(rerr != nil, "C08.seq.over-limit-never-complete")
+		vAssert(vAnd(len(got) <= L2+1, vIsPrefix(got, d2)), "C08.seq.over-limit-bytes-handed-out")
+		first, nClose, _, _ := vCloseFrames(t.out)
+		if nClose == 1 && len(first) >= 2 {
+			vAssert(int(first[0])<<8|int(first[1]) == 1009, "C08.seq.close-1009")
+		} else {
+			vAssert(false, "C08.seq.close-1009")
+		}
+	}
+	c.CloseNow()
+	vObserve("c08seq", L1, L2, n1, n2, rerr == nil)
+}
+
+// C08.declared: a frame header declaring any length above the limit, up to 2^63-1, with limit+1 (or more) payload bytes
+// actually present: the read fails after at most limit+1 bytes and a Close frame with status 1009 goes out, whatever the
+// declared length is. (The engine forks on the number of decimal digits of the declared length where the library
+// renders it into an error text, so that the length of that text -- it becomes the close reason -- is exact.)
+func verifC08_declared() {
+	client := vParam("client", 1) == 1
+	vInstallRand()
+	vGhostFmtDigits(true)
+	L := 1 + vChoose("L", 2)
+	useDefault := vParam("default", 0) == 1
+	if useDefault {
+		L = 32768 // the documented default, no SetReadLimit call: five more digits in any text that renders the limit
+	}
+	declared := vI64("declared")
+	vAssume(declared > int64(L))
+	present := L + 1 + vChoose("extra", 2)
+	vAssume(declared >= int64(present))
+	h := vRefHeader{fin: vChoose("fin", 2) == 1, opcode: 2, masked: !client, length: uint64(declared)}
+	if h.masked {
+		copy(h.key[:], vBytes("key", 4))
+	}
+	wire := vRefEncodeHeader(h)
+	var data []byte
+	if useDefault {
+		data = make([]byte, present) // contents are not the subject here
+	} else {
+		data = vBytes("data", present)
+	}
+	for i, b := range data {
+		wire = append(wire, b^vIteU8(h.masked, h.key[i%4], 0))
+	}
+	t := vNewTransport(wire)
+	t.endMode = vEndBlock
+	c := vNewConn(t, client, nil, 64, 256)
+	bufSize := 1 + vChoose("buf", 2)*6
+	if useDefault {
+		bufSize = 4096
+	} else {
+		c.SetReadLimit(int64(L))
+	}
+	_, r, err := c.Reader(vBG)
+	vAssert(err == nil, "C08.declared.reader")
+	if err != nil {
+		return
+	}
+	got, rerr := vReadAll(r, bufSize)
+	vReach("C08.declared.read")
+	vAssert(rerr != nil, "C08.declared.over-limit-never-complete")
+	vAssert(vAnd(len(got) <= L+1, vIsPrefix(got, data)), "C08.declared.bytes-handed-out")
+	first, nClose, _, _ := vCloseFrames(t.out)
+	if nClose == 1 && len(first) >= 2 {
+		vAssert(int(first[0])<<8|int(first[1]) == 1009, "C08.declared.close-1009")
+	} else {
+		vAssert(false, "C08.declared.close-1009")
+	}
+	c.CloseNow()
+	vObserve("c08declared", declared, len(got), nClose)
+}
